@@ -77,4 +77,20 @@ def holdsTraceContent (emptyId : Option Nat) (cs : Classes) (fuel : Nat) (watch 
     (ops : List (Nat × Key)) (obs : List (List (Option Nat))) : Bool :=
   obs == contentTrace emptyId (specTrace specSelect fuel watch cs ops)
 
+/-! ### programs that also change the tables -/
+
+/-- the active lists of the observed classes after each step of a program of selections, table
+assignments, table edits and list assignments; a selection reads the tables as they are then -/
+def progTrace (sel : Classes → Nat → Nat → Key → Classes) (fuel : Nat) (watch : List Nat) :
+    Classes → List Op → List (List (Option Nat))
+  | _, [] => []
+  | cs, op :: ops =>
+    let cs' := step sel cs fuel op
+    watch.map (cs'.active fuel) :: progTrace sel fuel watch cs' ops
+
+/-- the statement for programs, for an observer of list contents -/
+def holdsProg (emptyId : Option Nat) (cs : Classes) (fuel : Nat) (watch : List Nat)
+    (ops : List Op) (obs : List (List (Option Nat))) : Bool :=
+  obs == contentTrace emptyId (progTrace specSelect fuel watch cs ops)
+
 end Spec.C19
